@@ -284,6 +284,107 @@ func reusedResponse(id string, seed uint64) runner.Result {
 	return res
 }
 
+// endedEarlyBehindBufferedAnswer: a server that leaves flushing to its handlers. In each round the
+// handler of a streaming RPC sends one answer (it stays in the writer), the client ends that RPC early
+// (Close, or its context cancelled with soft cancel), the handler notices and returns nil. What the
+// client did to that RPC concerns that RPC: the unary RPC that follows must get its own answer.
+func endedEarlyBehindBufferedAnswer(id string, seed uint64) runner.Result {
+	r := &payload.SplitMix{S: seed}
+	cfg := prog.GenConfig(r, false)
+	if cfg.Net.Cap == 0 {
+		cfg.Net.Cap = -1
+	}
+	how := payload.Pick(r, []string{"Close", "cancel"})
+	soft := how == "cancel" || r.Intn(2) == 0
+	cfg.Client.SoftCancel, cfg.Server.SoftCancel = soft, soft
+	cfg.Server.Stream.ManualFlush = true
+	cfg.Server.WriterBufferSize = 1 << 16
+	sent := make(chan struct{}, 8)
+	handler := rig.HandlerFunc(func(stream drpc.Stream, rpc string) error {
+		var m []byte
+		if err := stream.MsgRecv(&m, payload.Enc{}); err != nil {
+			return nil
+		}
+		h, _ := payload.Parse(m)
+		out := payload.Make(h.Tag, 1, 0, 0, 10)
+		if err := stream.MsgSend(&out, payload.Enc{}); err != nil {
+			return nil
+		}
+		if rpc == "/unary" {
+			return nil
+		}
+		sent <- struct{}{}
+		<-stream.Context().Done()
+		return nil
+	})
+	rg := rig.New(rig.Config{Net: cfg.Net, Client: cfg.Client, Server: cfg.Server}, handler)
+	defer rg.Teardown()
+	rounds := 1 + r.Intn(3)
+	desc := fmt.Sprintf("%s server-manual-flush soft=%v | %d rounds of: streaming RPC whose handler has one answer buffered, ended early by the client's %s, handler returns nil; then a unary RPC", cfg.Desc, soft, rounds, how)
+	var fails []string
+	for i := 0; i < rounds && len(fails) == 0; i++ {
+		tag := uint64(2*i + 1)
+		ctx, cancel := context.WithCancel(context.Background())
+		st, err := rg.Conn.NewStream(ctx, "/stream", payload.Enc{})
+		if err != nil {
+			cancel()
+			fails = append(fails, fmt.Sprintf("round %d: NewStream failed: %s", i+1, rig.ErrStr(err)))
+			break
+		}
+		in := payload.Make(tag, 0, 0, 0, 5)
+		if err := st.MsgSend(&in, payload.Enc{}); err != nil {
+			cancel()
+			fails = append(fails, fmt.Sprintf("round %d: send failed: %s", i+1, rig.ErrStr(err)))
+			break
+		}
+		if s, _ := census.QuiesceOr(sentCh(sent), rig.Watchdog); s != "ready" {
+			cancel()
+			return runner.Inconcl(id, "the handler did not get to its send: "+desc)
+		}
+		census.Quiesce(rig.Watchdog)
+		if how == "Close" {
+			st.Close()
+		}
+		cancel()
+		census.Quiesce(rig.Watchdog)
+		if how == "cancel" {
+			st.Close()
+		}
+		if rig.IsClosed(rg.Conn.Closed()) {
+			if soft {
+				fails = append(fails, fmt.Sprintf("round %d: the connection is closed after an RPC was ended early with soft cancel", i+1))
+			}
+			break
+		}
+		in2 := payload.Make(tag+1, 0, 0, 0, 5)
+		var out []byte
+		op := rig.Go("unary", func() (interface{}, error) {
+			return nil, rg.Conn.Invoke(context.Background(), "/unary", payload.Enc{}, &in2, &out)
+		})
+		if !op.Wait() {
+			return runner.Inconcl(id, "the unary call blocked (progress is C06's concern): "+desc)
+		}
+		if op.Err != nil {
+			fails = append(fails, fmt.Sprintf("round %d: the unary RPC after the RPC that was ended early failed with %s", i+1, rig.ErrStr(op.Err)))
+		} else if h, err := payload.Parse(out); err != nil || h.Tag != tag+1 {
+			fails = append(fails, fmt.Sprintf("round %d: the unary RPC got an answer that is not its own (tag %d, err %v)", i+1, h.Tag, err))
+		}
+	}
+	if len(fails) > 0 {
+		return runner.Violation(id, "isolation:rpc-after-one-ended-early-behind-a-buffered-answer", desc+"\n"+strings.Join(fails, "\n"))
+	}
+	res := runner.Hold(id, desc, true)
+	res.Events = int64(2 * rounds)
+	return res
+}
+
+// sentCh adapts a buffered notification channel to the closed-channel convention of QuiesceOr.
+func sentCh(c chan struct{}) <-chan struct{} {
+	out := make(chan struct{})
+	go func() { <-c; close(out) }()
+	return out
+}
+
 // queuedCancel: RPC 1 is soft-cancelled while its cancel packet is held back by the transport, RPC 2
 // is issued meanwhile, waits for its turn and is cancelled while it waits; the transport lets go. RPC 3,
 // a clean one, comes afterwards: the two cancels were sent on other RPCs and must not decide how it ends.
@@ -351,6 +452,12 @@ func scenario(id string, seed uint64, family string) runner.Result {
 	if (family == "abandoned" || family == "finish") && r.Intn(4) != 0 && !cfg.Client.SoftCancel {
 		cfg.Client.SoftCancel, cfg.Server.SoftCancel = true, true
 		cfg.Desc = strings.Replace(cfg.Desc, "soft=false", "soft=true", 1)
+	}
+	if family == "" && r.Intn(4) == 0 {
+		// a server that leaves flushing to its handlers (which do not flush: what they send goes out
+		// with their next receive, their half-close or their return)
+		cfg.Server.Stream.ManualFlush = true
+		cfg.Desc += " server-manual-flush"
 	}
 	nrpc := 3 + r.Intn(10)
 	ngo := 1 + r.Intn(4)
@@ -640,6 +747,11 @@ func gen(tier string, seed uint64) []runner.Scenario {
 	}
 	for i := 0; i < n/10; i++ {
 		i := i
+		id := fmt.Sprintf("ended-early-behind-buffered-answer/%d", i)
+		out = append(out, runner.Scenario{ID: id, Run: func() runner.Result { return endedEarlyBehindBufferedAnswer(id, payload.Hash(seed, 0xC02A, uint64(i))) }})
+	}
+	for i := 0; i < n/10; i++ {
+		i := i
 		id := fmt.Sprintf("reused-response/%d", i)
 		out = append(out, runner.Scenario{ID: id, Run: func() runner.Result { return reusedResponse(id, payload.Hash(seed, 0xC02E, uint64(i))) }})
 	}
@@ -660,7 +772,7 @@ func main() {
 	runner.Main(runner.Check{
 		Property: "C02",
 		Level:    "exploration",
-		Rule:     "one case = one program of 3-12 RPCs (clean shapes and early-ending kinds at seeded positions, some handlers that keep sending after the client left) issued by 1-4 goroutines on one connection, in a seeded configuration cell, under one of: perturbed scheduling, the client goroutine of later RPCs parked at one of 6 internal points until everything earlier RPCs left behind has been delivered, or plain; plus the late-first-receive family (an RPC whose first receive happens only after it has finished on the wire and the next RPC of another goroutine sits at an internal point with frames written but not flushed) and the abandoned-after-metadata family (an RPC with metadata cancelled between its metadata write and its invoke write, followed by RPCs with their own metadata) and the cancel-meets-finish family (an RPC that ends normally and is cancelled while its completion sits at one of 6 internal points, followed by an RPC that cancels itself and by clean RPCs: what the first left behind must not decide how the later ones turn out) and the queued-cancel family (RPC 1 soft-cancelled with its cancel packet held back by the transport, RPC 2 cancelled while waiting for its turn, then a clean RPC 3). Every delivered message carries (rpc tag, direction, sequence, checksum); handler errors carry their rpc number. Non-trivial: all cases. Distinct: by configuration and program text; evidence also counts distinct point-hit sequences.",
+		Rule:     "one case = one program of 3-12 RPCs (clean shapes and early-ending kinds at seeded positions, some handlers that keep sending after the client left) issued by 1-4 goroutines on one connection, in a seeded configuration cell, under one of: perturbed scheduling, the client goroutine of later RPCs parked at one of 6 internal points until everything earlier RPCs left behind has been delivered, or plain; plus the late-first-receive family (an RPC whose first receive happens only after it has finished on the wire and the next RPC of another goroutine sits at an internal point with frames written but not flushed) and the abandoned-after-metadata family (an RPC with metadata cancelled between its metadata write and its invoke write, followed by RPCs with their own metadata) and the cancel-meets-finish family (an RPC that ends normally and is cancelled while its completion sits at one of 6 internal points, followed by an RPC that cancels itself and by clean RPCs: what the first left behind must not decide how the later ones turn out) and the ended-early-behind-buffered-answer family (a manual-flush server whose handler has an answer buffered when the client closes or soft-cancels the RPC and which then returns nil, followed by a unary RPC) and the queued-cancel family (RPC 1 soft-cancelled with its cancel packet held back by the transport, RPC 2 cancelled while waiting for its turn, then a clean RPC 3). Every delivered message carries (rpc tag, direction, sequence, checksum); handler errors carry their rpc number. Non-trivial: all cases. Distinct: by configuration and program text; evidence also counts distinct point-hit sequences.",
 		Assumptions: []string{
 			"a clean RPC must succeed completely only if the connection never reported closed during the program (a hard cancel closes it legitimately)",
 			"a call that never returns makes the case inconclusive here (C04/C05/C06 decide progress)",
